@@ -8,17 +8,18 @@ RULE = (
     "match-small: per kind {i8,u8,i4,u1,f8,f4,S3,U3} arr1 = EVERY tuple of length <= L1 over the "
     "kind's 5-8 symbol alphabet (all ordered duplicate-free selections, and all selections with a "
     "repeated value, which must raise ValueError) x arr2 = EVERY tuple of length <= L2 over the same "
-    "alphabet (length <= 2 when arr1 has a repeat); each case calls match(presorted=False), "
+    "alphabet (length <= 2 when arr1 has a repeat), L1 = L2 = 3 quick / 4 thorough; each case calls "
+    "match(presorted=False), "
     "match(presorted=True) when arr1 is ascending, and match_multi.  match-long: arr1 = every "
-    "non-empty subset of an N-symbol ladder in 4 orders (ascending, descending, rotated, one seeded "
+    "non-empty subset of an N-symbol ladder (N = 9 / 12) in 4 orders (ascending, descending, rotated, one seeded "
     "permutation) x 2 probe arrays (every ladder symbol twice plus one value below and one above all; "
     "ladder only).  match-forms: every arr1,arr2 of length <= 2 x input form {ndarray, list, python "
     "scalar, numpy scalar, 0-d array, strided view, negative-stride view, byte-swapped dtype, "
     "read-only} on either or both sides.  match-widths: both arrays of the same family but different "
-    "item size (S3/S1, S2/S5, U3/U1, i4/i8, u1/i8, u1/u8, f4/f8 and reversed).  unique: every tuple "
-    "of length <= LU over 4-5 symbols per kind, values= on/off.  rem_dup: every (values, flags) of "
-    "equal length <= LR over 3 value symbols x {4 int, 3 float, 3 u1, 2 bool} flag symbols, values= "
-    "on/off.  non-trivial (match) = arr2 has a repeated value, an element that does not occur in arr1 "
+    "item size (S3/S1, S2/S5, U3/U1, i4/i8, u1/i8, u1/u8, f4/f8 and reversed), arr1 length <= 2 / 3, "
+    "arr2 length <= 2.  unique: every tuple of length <= 5 / 6 over 4 / 5 symbols per kind (f8: 6 / 7, "
+    "with both zeros and inf), values= on/off.  rem_dup: every (values, flags) of equal length <= 4 / 5 "
+    "over 3-4 value symbols x {4 int, 3 float, 3 u1, 2 bool} flag symbols, values= on/off.  non-trivial (match) = arr2 has a repeated value, an element that does not occur in arr1 "
     "(below its minimum, above its maximum or in a gap), arr1 is not ascending, arr1 has a repeat, or "
     "an input is not a plain ndarray; (unique/rem_dup) = the input has a repeated value or its first "
     "element is not the minimum."
@@ -409,7 +410,8 @@ def main(ctx):
                                    "readonly"]))
 
     # same family, different item size
-    LW = ctx.pick(2, 3)
+    LW = ctx.pick(2, 3)   # arr1
+    LW2 = 2               # arr2
     units_w = []
     for dta, dtb in WIDTH_PAIRS:
         ka = dta if dta in ALPHA else dta[0] + "3"
@@ -427,13 +429,13 @@ def main(ctx):
 
     def expand_w(u):
         dta, a1, dtb, sb = u
-        lmax = 1 if has_repeat(np.array(a1, dtype=dta).tolist()) else LW
+        lmax = 1 if has_repeat(np.array(a1, dtype=dta).tolist()) else LW2
         for n in range(1, lmax + 1):
             for a2 in itertools.product(sb, repeat=n):
                 yield (dta, a1, "arr", dtb, a2, "arr")
 
     ctx.lattice("match-widths", units_w, one_match, expand=expand_w,
-                bounds=dict(max_len=LW, dtype_pairs=["%s/%s" % p for p in WIDTH_PAIRS]))
+                bounds=dict(max_len_arr1=LW, max_len_arr2=LW2, dtype_pairs=["%s/%s" % p for p in WIDTH_PAIRS]))
 
     # ---------------------------------------------------------------- unique
     def one_unique(case, rec):
